@@ -306,4 +306,4 @@ if __name__ == '__main__':
                      'DBMS), pre-emption only between transactions',
                      'interleavings are enumerated as paths; within each the '
                      'solver covers all generations and amounts'],
-        quick_budget=170, thorough_budget=1700))
+        quick_budget=420, thorough_budget=2400))
